@@ -40,7 +40,7 @@ def run(ck):
     ck.rule("C01.R13", "the no_std registry re-evaluates what the std one does (interests and max level from the same calls; as C04.R7)", floor=4)
     ck.rule("C01.R6", "every new collector is registered (register_dispatch)", floor=6)
     ck.rule("C01.R7", "who may write MAX_LEVEL / callsite interest", floor=4)
-    ck.rule("C01.R8", "STATIC_MAX_LEVEL table under each max_level feature", floor=18 if ck.tier == "thorough" else 0)
+    ck.rule("C01.R8", "STATIC_MAX_LEVEL table under each max_level feature", floor=24)
     ck.rule("C01.R11", "collector wrappers forward the interest / enabled / hint questions to the wrapped collector (as C09.R1/R2)", floor=20)
     ck.rule("C01.R10", "interest rebuilds, collector registration and first-hit registration are serialised by the registry lock (as C04.R1)", floor=3)
     ck.rule("C01.R9", "the callsite registry never loses a registered callsite (lock-free push/walk, as C04.R3)", floor=5)
@@ -73,8 +73,7 @@ def run(ck):
     FX = Facts(fx)
     ck.configs.append(fx)
     r1(ck, F, FX)
-    if ck.tier == "thorough":
-        r8(ck)
+    r8(ck)       # 24 one-crate builds of `tracing` (one per feature x profile), about half a second each
 
 
 # ------------------------------------------------------------------ R1
@@ -604,7 +603,7 @@ def r8(ck):
     for rel in (False, True):
         for lvl, name in want.items():
             feat = ("release_" if rel else "") + "max_level_" + lvl
-            for dbg in ((True, False) if rel else (True,)):
+            for dbg in (True, False):      # (a max_level_* feature applies to release builds too, unless a release_* one overrides it)
                 cfg = "tfeat:%s:%s" % (feat, "dbg" if dbg else "nodbg")
                 F = Facts(cfg)
                 ck.configs.append(cfg)
